@@ -70,10 +70,10 @@ CLAIMED["C01"] = {
 }
 CLAIMED["C02"] = {
   "text": "Theorems: frame mangling f<k>_<name> is injective and k is fresh per function, globals keep their name, call lines appear in evaluation order; "
-          "a function definition (body of the C01 fragment, return at the end or inside if-branches, or no result) refines the source call: arguments bound in order, globals in place, caller's locals untouched "
+          "a function definition (body of the C01 fragment, return anywhere incl. inside branches and loops, or no result) refines the source call: arguments bound in order, globals in place, caller's locals untouched "
           "whatever the names, all returned values in the return registers in order; all functions of a script refine the source calls at every nesting depth "
           "(the script's own lines as call oracle); call statements x = f(..), x, y = f(..), f(..) and simultaneous assignment x, y = y, x are preserved. "
-          "Calls as operands/arguments, slices by reference, return inside loops are decided by executing generated programs against Sem/Src.v.",
+          "Calls as operands/arguments and slices by reference are decided by executing generated programs against Sem/Src.v.",
   "ref": "DESIGN.md section 10.2 and 5/C02",
   "note": "PARTIAL: see the fragment above. Known defects are listed in known_findings.json.",
   "technique": "Coq proof (name isolation, call order, simulation of function definitions and call sites) + execution against a reference interpreter",
